@@ -23,7 +23,7 @@ func runC15(c *Ctx) {
 	if c.Thorough() {
 		nSeq = 300
 	}
-	c.R.Rule = fmt.Sprintf("(a) %d random histories per persistent instance (bolt file, multi- and single-bucket fs on a real directory and on a retained MemMapFs) over the alphabet of C02 with 'close the server and start a new one on the same storage' inserted at random points and at the end; every answer after a reopen is compared with the Lean model (for which reopen keeps buckets/objects and forgets pending uploads) and the reference model; (b) crash points, in process: for every operation of a fixed history (first put, nested put, overwrite, larger overwrite, delete, multi-delete, copy) and every k, the k-th mutating filesystem call of the operation is cut (a write stores half of its buffer, later calls fail), a new server is started on the storage, and the specification is evaluated: every write acknowledged before the cut is intact, the operation in flight is wholly present or wholly absent, and every GET and listing answers without a 5xx; the number of crash points per operation is recorded; (c) the real server binary built from cmd/gofakes3 and run as a process on loopback for bolt, fs (with and without -fs.meta) and directfs (with -directfs.meta, default and custom bucket): a random put/overwrite/delete history with Content-Type and user metadata over HTTP, kill -9 while idle, a new process with the same flags: the same listing and for every acknowledged key the same status, bytes, ETag and metadata; (d) bolt with fsync on: while a key is overwritten in a loop (PUT, copy onto it, multipart complete onto it) a second goroutine keeps taking snapshots of the committed database (what a process killed at that moment restarts from); a new server on every snapshot must show the untouched key intact and the key in flight with the complete body, ETag and metadata of one upload between the last acknowledged and the last started; non-trivial = distinct (instance, operation, crash point)", nSeq)
+	c.R.Rule = fmt.Sprintf("(a) %d random histories per persistent instance (bolt file, multi- and single-bucket fs on a real directory and on a retained MemMapFs) over the alphabet of C02 with 'close the server and start a new one on the same storage' inserted at random points and at the end; every answer after a reopen is compared with the Lean model (for which reopen keeps buckets/objects and forgets pending uploads) and the reference model; (b) crash points, in process: for every operation of a fixed history (first put, nested put, overwrite, larger overwrite, delete, multi-delete, copy) and every k, the k-th mutating filesystem call of the operation is cut (a write stores half of its buffer, later calls fail), a new server is started on the storage, and the specification is evaluated: every write acknowledged before the cut is intact, the operation in flight is wholly present or wholly absent, and every GET and listing answers without a 5xx; the number of crash points per operation is recorded; (c) the real server binary built from cmd/gofakes3 and run as a process on loopback for bolt, fs (with and without -fs.meta) and directfs (with -directfs.meta, default and custom bucket): a random put/overwrite/delete history with Content-Type and user metadata over HTTP, kill -9 while idle, a new process with the same flags: the same listing and for every acknowledged key the same status, bytes, ETag and metadata; (d) bolt with fsync on: while a key is overwritten in a loop (PUT, copy onto it, multipart complete onto it) a second goroutine keeps taking snapshots of the committed database (what a process killed at that moment restarts from); a new server on every snapshot must show the untouched key intact and the key in flight with the complete body, ETag and metadata of one upload between the last acknowledged and the last started; (e) every constructor configuration of the fs backends (MultiFsFlags none/FsPathCreate/FsPathCreateAll, separate metadata storage or not): the backend is constructed a second and a third time on the same storage with the same configuration and reads back what the first wrote; the operations of (b) that the disk-level model (Lean Model/FsDisk) speaks about — uploads and deletes of one key — are additionally compared with it cut by cut: status, bytes, ETag and the operation header read after the restart equal the model's; non-trivial = distinct (instance, operation, crash point)", nSeq)
 	// (a) reopen
 	for _, kind := range c.kinds([]string{"bolt", "fsM-dir", "fsS-dir", "fsM-mem", "fsS-mem"}) {
 		for s := 0; s < nSeq; s++ {
@@ -33,6 +33,10 @@ func runC15(c *Ctx) {
 	// (b) crash points
 	for _, kind := range c.kinds([]string{"fsM-mem", "fsS-mem", "fsM-dir", "fsS-dir"}) {
 		c15Crash(c, kind)
+	}
+	// (e) configurations: the constructor options of the fs backends, second start on the same storage
+	for _, kind := range c.kinds([]string{"fsM-mem", "fsM-dir", "fsS-mem", "fsS-dir"}) {
+		c15Options(c, kind)
 	}
 	// (d) bolt: snapshots of the committed database while a key is being overwritten
 	if c.Only == "" || c.Only == "bolt" {
@@ -193,6 +197,9 @@ type crashOp struct {
 	name string
 	keys []string // keys the operation writes or deletes
 	run  func(h *crashHarness) int
+	// operations the disk-level model (Lean Model/FsDisk) speaks about: "put" / "del" on one key
+	kind string
+	body []byte
 }
 
 type crashHarness struct {
@@ -233,9 +240,97 @@ func (h *crashHarness) open(withFaults bool) error {
 	return nil
 }
 
-func (h *crashHarness) put(key string, body []byte) int {
-	r := h.inst.Do(impl.Req{Method: "PUT", Path: "/" + h.bucket + "/" + key, Body: bytes.NewReader(body), Header: map[string]string{"X-Amz-Meta-K": key}})
+func (h *crashHarness) put(key string, body []byte) int { return h.putTag(key, body, "") }
+
+// putTag: every upload of the crash scenario carries a header naming the operation, so that the
+// headers of the old and of the new object differ
+func (h *crashHarness) putTag(key string, body []byte, tag string) int {
+	r := h.inst.Do(impl.Req{Method: "PUT", Path: "/" + h.bucket + "/" + key, Body: bytes.NewReader(body), Header: map[string]string{"X-Amz-Meta-K": key + ":" + tag}})
 	return r.Status
+}
+
+// getFull: status, body, the operation header and the ETag
+func (h *crashHarness) getFull(key string) (int, []byte, string, string) {
+	r := h.inst.Do(impl.Req{Method: "GET", Path: "/" + h.bucket + "/" + key})
+	if r.Panic != "" {
+		return 599, nil, "panic", ""
+	}
+	return r.Status, r.Body, r.Header.Get("X-Amz-Meta-K"), strings.Trim(r.Header.Get("ETag"), `"`)
+}
+
+// diskCut names the state of the disk-level model (Model/FsDisk PutCut / DelCut) the storage is
+// in after the operation on `key` was cut: which of its calls completed is read off the logs of
+// the crash-point file systems (the last entry of a dead one is the call that was cut).
+func (h *crashHarness) diskCut(kind, key string, bodyLen int) string {
+	isObj := func(name string) bool {
+		name = filepath.ToSlash(name)
+		return name == key || strings.HasSuffix(name, "/"+h.bucket+"/"+key) || name == h.bucket+"/"+key
+	}
+	isMeta := func(name string) bool {
+		name = filepath.ToSlash(name)
+		flat := strings.NewReplacer("/", "_", "\\", "_").Replace(key)
+		base := name[strings.LastIndex(name, "/")+1:]
+		return strings.HasPrefix(base, flat+"-") && !isObj(name)
+	}
+	type call struct {
+		verb, name string
+		cut, meta  bool
+	}
+	var calls []call
+	add := func(f *faultfs.Fs, meta bool) {
+		if f == nil {
+			return
+		}
+		for i, e := range f.Log {
+			p := strings.SplitN(e, " ", 2)
+			if len(p) != 2 {
+				continue
+			}
+			calls = append(calls, call{p[0], p[1], f.Dead && i == len(f.Log)-1, meta})
+		}
+	}
+	add(h.ffs, false)
+	add(h.fmeta, true)
+	done := func(verb string, pred func(string) bool) bool {
+		for _, c := range calls {
+			if !c.cut && c.verb == verb && pred(c.name) {
+				return true
+			}
+		}
+		return false
+	}
+	cutIs := func(verb string, pred func(string) bool) bool {
+		for _, c := range calls {
+			if c.cut && c.verb == verb && pred(c.name) {
+				return true
+			}
+		}
+		return false
+	}
+	if kind == "del" {
+		switch {
+		case !done("remove", isObj):
+			return "beforeRemove"
+		case !done("remove", isMeta):
+			return "afterRemove"
+		}
+		return "done"
+	}
+	switch {
+	case cutIs("write", isObj):
+		return fmt.Sprintf("midWrite:%d", bodyLen/2)
+	case done("write", isObj):
+		if cutIs("write", isMeta) {
+			return "metaTruncated"
+		}
+		if done("write", isMeta) {
+			return "done"
+		}
+		return "afterWrite"
+	case done("create", isObj):
+		return "afterCreate"
+	}
+	return "beforeCreate"
 }
 
 func (h *crashHarness) get(key string) (int, []byte, string) {
@@ -281,33 +376,53 @@ func newCrashHarness(c *Ctx, kind string) (*crashHarness, error) {
 func c15Crash(c *Ctx, kind string) {
 	big := bytes.Repeat([]byte("0123456789abcdef"), 5000) // 80 kB: more than one copy buffer
 	ops := []crashOp{
-		{"put-first", []string{"a"}, func(h *crashHarness) int { return h.put("a", []byte("first-a")) }},
-		{"put-nested", []string{"b/c"}, func(h *crashHarness) int { return h.put("b/c", []byte("nested")) }},
-		{"overwrite", []string{"a"}, func(h *crashHarness) int { return h.put("a", []byte("second-version-of-a")) }},
-		{"overwrite-big", []string{"a"}, func(h *crashHarness) int { return h.put("a", big) }},
-		{"overwrite-empty", []string{"a"}, func(h *crashHarness) int { return h.put("a", nil) }},
-		{"delete", []string{"b/c"}, func(h *crashHarness) int {
+		{name: "put-first", keys: []string{"a"}, kind: "put", body: []byte("first-a")},
+		{name: "put-nested", keys: []string{"b/c"}, kind: "put", body: []byte("nested")},
+		{name: "overwrite", keys: []string{"a"}, kind: "put", body: []byte("second-version-of-a")},
+		{name: "overwrite-big", keys: []string{"a"}, kind: "put", body: big},
+		{name: "overwrite-empty", keys: []string{"a"}, kind: "put", body: nil},
+		{name: "overwrite-one-byte", keys: []string{"a"}, kind: "put", body: []byte("x")},
+		{name: "delete", keys: []string{"b/c"}, kind: "del", run: func(h *crashHarness) int {
 			return h.inst.Do(impl.Req{Method: "DELETE", Path: "/" + h.bucket + "/b/c"}).Status
 		}},
-		{"put-again", []string{"b/c"}, func(h *crashHarness) int { return h.put("b/c", []byte("again")) }},
-		{"copy", []string{"d"}, func(h *crashHarness) int {
+		{name: "put-again", keys: []string{"b/c"}, kind: "put", body: []byte("again")},
+		{name: "copy", keys: []string{"d"}, run: func(h *crashHarness) int {
 			return h.inst.Do(impl.Req{Method: "PUT", Path: "/" + h.bucket + "/d", Header: map[string]string{"X-Amz-Copy-Source": "/" + h.bucket + "/a"}}).Status
 		}},
-		{"multi-delete", []string{"a", "d"}, func(h *crashHarness) int {
+		{name: "multi-delete", keys: []string{"a", "d"}, run: func(h *crashHarness) int {
 			return h.inst.Do(impl.Req{Method: "POST", Path: "/" + h.bucket, Query: "delete", Body: bytes.NewReader([]byte("<Delete><Object><Key>a</Key></Object><Object><Key>d</Key></Object></Delete>"))}).Status
 		}},
+	}
+	for i := range ops {
+		if ops[i].kind == "put" {
+			op := ops[i]
+			ops[i].run = func(h *crashHarness) int { return h.putTag(op.keys[0], op.body, op.name) }
+		}
 	}
 	allKeys := []string{"a", "b/c", "d"}
 	type kv struct {
 		st   int
 		body string
 		meta string
+		etag string
+	}
+	hexOr := func(s string) string {
+		if s == "" {
+			return "-"
+		}
+		return hx(s)
+	}
+	mdLine := func(v string) string {
+		if v == "" {
+			return "-"
+		}
+		return hx("X-Amz-Meta-K") + "=" + hx(v)
 	}
 	observe := func(h *crashHarness) (map[string]kv, string) {
 		out := map[string]kv{}
 		for _, k := range allKeys {
-			st, body, md := h.getMeta(k)
-			out[k] = kv{st, string(body), md}
+			st, body, md, etag := h.getFull(k)
+			out[k] = kv{st, string(body), md, etag}
 		}
 		lr := h.inst.Do(impl.Req{Method: "GET", Path: "/" + h.bucket})
 		listing := fmt.Sprint(lr.Status)
@@ -377,6 +492,10 @@ func c15Crash(c *Ctx, kind string) {
 				h.ffs.CrashAt = k
 			}
 			st := op.run(h)
+			cutName := ""
+			if op.kind != "" {
+				cutName = h.diskCut(op.kind, op.keys[0], len(op.body))
+			}
 			var logTail string
 			if n := len(h.ffs.Log); n > 0 {
 				logTail = h.ffs.Log[n-1]
@@ -389,6 +508,32 @@ func c15Crash(c *Ctx, kind string) {
 			got, listing := observe(h)
 			c.R.Evaluations++
 			desc := fmt.Sprintf("%s cut at filesystem call %d of %d (%s); the request answered %d", op.name, k, nCalls, logTail, st)
+			if op.kind != "" {
+				// the disk-level model: exactly what a server started on this storage reads for the key
+				key := op.keys[0]
+				oldB, oldMd := "~", "-"
+				if before[key].st == 200 {
+					oldB, oldMd = hexOr(before[key].body), mdLine(before[key].meta)
+				}
+				line := fmt.Sprintf("diskcut %s %s %s %s %s %s", op.kind, cutName, oldB, oldMd, hexOr(string(op.body)), mdLine(key+":"+op.name))
+				model, _, err := c.D.Ask(line)
+				if err != nil {
+					panic(err)
+				}
+				g := got[key]
+				obs := fmt.Sprintf("status %d", g.st)
+				if g.st == 200 {
+					obs = fmt.Sprintf("obj %s %s meta=%s", hexOr(g.body), g.etag, mdLine(g.meta))
+				} else if g.st == 404 {
+					obs = "err NoSuchKey"
+				}
+				c.R.Evaluations++
+				c.hist("disk-model-cuts:" + op.kind + ":" + strings.SplitN(cutName, ":", 2)[0])
+				if obs != model {
+					c.mismatch(Mismatch{Kind: "model", Backend: kind, Case: []string{desc, line}, Impl: trunc(obs, 160), Model: trunc(model, 160),
+						Spec: "the disk-level model of the fs backends (Model/FsDisk, Props/C15D.crash_put_outcomes) describes what is read after the cut", Finger: "c15:crash:outside-disk-model:" + op.kind})
+				}
+			}
 			viol := ""
 			fp := ""
 			for _, key := range allKeys {
@@ -436,3 +581,106 @@ func countObj(h *crashHarness, op crashOp) int {
 }
 
 var objCalls = map[string]int{}
+
+// c15Options: every constructor configuration of an fs backend opens the storage it created, again and again.
+func c15Options(c *Ctx, kind string) {
+	type cfg struct {
+		name string
+		mk   func(base, meta afero.Fs) (gofakes3.Backend, error)
+	}
+	var cfgs []cfg
+	if strings.HasPrefix(kind, "fsM") {
+		for _, f := range []struct {
+			name  string
+			flags s3afero.FsFlags
+			set   bool
+		}{{"default", 0, false}, {"MultiFsFlags(0)", 0, true}, {"MultiFsFlags(FsPathCreate)", s3afero.FsPathCreate, true}, {"MultiFsFlags(FsPathCreateAll)", s3afero.FsPathCreateAll, true}, {"MultiFsFlags(FsPathCreate|FsPathCreateAll)", s3afero.FsPathCreate | s3afero.FsPathCreateAll, true}} {
+			f := f
+			cfgs = append(cfgs, cfg{f.name, func(base, meta afero.Fs) (gofakes3.Backend, error) {
+				if !f.set {
+					return s3afero.MultiBucket(base)
+				}
+				return s3afero.MultiBucket(base, s3afero.MultiFsFlags(f.flags))
+			}})
+			if strings.HasSuffix(kind, "-mem") {
+				cfgs = append(cfgs, cfg{f.name + "+MultiWithMetaFs", func(base, meta afero.Fs) (gofakes3.Backend, error) {
+					if !f.set {
+						return s3afero.MultiBucket(base, s3afero.MultiWithMetaFs(meta))
+					}
+					return s3afero.MultiBucket(base, s3afero.MultiFsFlags(f.flags), s3afero.MultiWithMetaFs(meta))
+				}})
+			}
+		}
+	} else {
+		cfgs = append(cfgs, cfg{"SingleBucket", func(base, meta afero.Fs) (gofakes3.Backend, error) {
+			return s3afero.SingleBucket(impl.SingleBucketName, base, meta)
+		}})
+	}
+	for _, cf := range cfgs {
+		h, err := newCrashHarness(c, kind)
+		if err != nil {
+			return
+		}
+		if h.meta == nil {
+			h.meta = afero.NewMemMapFs()
+		}
+		var first string
+		for start := 0; start < 3; start++ {
+			c.R.Evaluations++
+			backend, err := cf.mk(h.base, h.meta)
+			if err != nil {
+				c.mismatch(Mismatch{Kind: "spec", Backend: kind, Case: []string{fmt.Sprintf("%s: start %d on the same storage", cf.name, start+1)}, Impl: "the store does not open: " + err.Error(), Spec: "the store opens", Finger: "c15:options:store-does-not-open"})
+				break
+			}
+			g := gofakes3.New(backend, gofakes3.WithTimeSkewLimit(0))
+			h.inst = &impl.Instance{Kind: kind, Backend: backend, G: g, H: g.Server()}
+			if start == 0 {
+				if strings.HasPrefix(kind, "fsM") {
+					h.inst.Do(impl.Req{Method: "PUT", Path: "/" + h.bucket})
+				}
+				h.putTag("a", []byte("first-a"), "options")
+				h.putTag("dir/b", []byte("nested-b"), "options")
+			}
+			var obs []string
+			for _, k := range []string{"a", "dir/b", "absent"} {
+				st, body, md, etag := h.getFull(k)
+				obs = append(obs, fmt.Sprintf("%s: %d %q %s %s", k, st, body, md, etag))
+			}
+			lr := h.inst.Do(impl.Req{Method: "GET", Path: "/" + h.bucket})
+			obs = append(obs, fmt.Sprintf("list: %d %s", lr.Status, strings.Join(allBetween(string(lr.Body), "<Key>", "</Key>"), ",")))
+			now := strings.Join(obs, " ; ")
+			if start == 0 {
+				first = now
+				if !strings.Contains(now, `a: 200 "first-a"`) {
+					c.mismatch(Mismatch{Kind: "model", Backend: kind, Case: []string{cf.name}, Impl: now, Finger: "c15:options:setup"})
+					break
+				}
+			} else if now != first {
+				c.mismatch(Mismatch{Kind: "spec", Backend: kind, Case: []string{fmt.Sprintf("%s: start %d on the same storage", cf.name, start+1)}, Impl: now, Spec: first, Finger: "c15:options:state-differs-after-restart"})
+				break
+			}
+			c.nontrivial(fmt.Sprintf("%s|options|%s|%d", kind, cf.name, start))
+		}
+		c.hist("options-restarts:" + kind)
+		if h.dir != "" {
+			os.RemoveAll(h.dir)
+		}
+	}
+}
+
+func allBetween(s, a, b string) []string {
+	var out []string
+	for {
+		i := strings.Index(s, a)
+		if i < 0 {
+			return out
+		}
+		s = s[i+len(a):]
+		j := strings.Index(s, b)
+		if j < 0 {
+			return out
+		}
+		out = append(out, s[:j])
+		s = s[j+len(b):]
+	}
+}
